@@ -53,11 +53,11 @@ struct Access
 }  // namespace verif
 }  // namespace Spectra
 
-static const char* CLS[10] = {"explicit_small_integers", "zero", "identity", "nilpotent_shift", "rank1", "rank2", "permutation", "signed_perm_345_orthogonal", "skew", "diagonal_with_ties"};
+static const char* CLS[11] = {"explicit_small_integers", "zero", "identity", "nilpotent_shift", "rank1", "rank2", "permutation", "signed_perm_345_orthogonal", "skew", "diagonal_with_ties", "permutation_equal_cycles"};
 
 static MatL adversarial_matrix(vf::Draw& d, Index n, bool symmetric, int& cls_out, long* scale_exp_out = nullptr)
 {
-    int cls = (int) d.range("matrix_class", 0, 9);
+    int cls = (int) d.range("matrix_class", 0, 10);
     cls_out = cls;
     MatL A = MatL::Zero(n, n);
     vf::Lcg g((uint64_t) d.range("content_seed", 0, 4095));
@@ -133,6 +133,19 @@ static MatL adversarial_matrix(vf::Draw& d, Index n, bool symmetric, int& cls_ou
                     A(j, i) = -A(i, j);
                 }
             break;
+        case 10:
+        {
+            // several disjoint cycles of ONE length (the rest fixed points): every root of unity of that order is an eigenvalue as many times as
+            // there are cycles, bit for bit - exact ties between complex conjugate pairs, which a random permutation almost never has
+            const Index L = 3 + (Index) g.below(4);
+            const Index m = n / L;
+            for (Index k = 0; k < m; k++)
+                for (Index i = 0; i < L; i++)
+                    A(k * L + (i + 1) % L, k * L + i) = 1;
+            for (Index i = m * L; i < n; i++)
+                A(i, i) = 1;
+            break;
+        }
         default:
             for (Index i = 0; i < n; i++)
                 A(i, i) = (ld) ((g.below(3) + 1) * (g.below(2) ? 1 : -1));
